@@ -146,6 +146,7 @@ func duplicates(rt *rtx.RT) (string, string) {
 type outcome struct {
 	before, after snap // around the last op
 	lastErr       string
+	prevSrc       string // source running before the last op (per the loads that succeeded)
 	failed        []bool // per op: a load that failed
 	dup, dupKey   string
 	bad           string
@@ -171,6 +172,7 @@ func execute(ops []op, skip []bool, withOther bool, opts ...runtime.Option) outc
 			return
 		}
 		o.after = observe(rt)
+		cur := versions[0].src
 		for i, p := range ops {
 			failed := false
 			if skip == nil || !skip[i] {
@@ -178,9 +180,12 @@ func execute(ops []op, skip []bool, withOther bool, opts ...runtime.Option) outc
 				o.lastErr = ""
 				switch p.kind {
 				case "load":
+					o.prevSrc = cur
 					if err := rt.Load(P, versions[p.ver].src); err != nil {
 						failed = true
 						o.lastErr = err.Error()
+					} else {
+						cur = versions[p.ver].src
 					}
 				case "line":
 					rt.Line("f", p.line)
@@ -194,6 +199,7 @@ func execute(ops []op, skip []bool, withOther bool, opts ...runtime.Option) outc
 						return
 					}
 					rt.Unload(P)
+					cur = ""
 				}
 				o.after = observe(rt)
 			}
@@ -248,7 +254,7 @@ func mkConfig(c *vlib.Ctx, cname string, vers []int, lines []string, withOther b
 			note := last.kind
 			if last.kind == "load" {
 				v := versions[last.ver]
-				sameSource := r.before.version == rtx.Hash(v.src)
+				sameSource := r.prevSrc == v.src
 				switch {
 				case sameSource:
 					note = "load-identical"
@@ -274,7 +280,7 @@ func mkConfig(c *vlib.Ctx, cname string, vers []int, lines []string, withOther b
 					}
 				default:
 					note = "load-ok"
-					if r.after.version != rtx.Hash(v.src) {
+					if r.after.version != rtx.Fingerprint(v.src) {
 						return viol("load-ok-not-running "+v.id, "the load succeeded but the running version is not the loaded source")
 					}
 					// every declaration kept at the same place with the same kind, name, type and keys keeps its data and expiry
